@@ -224,21 +224,52 @@ def fast_payloads(ctx, want):
     from nmea2000.decoder import NMEA2000Decoder
     rng = ctx.rng
     pgns = sorted(int(m.group(1)) for nm in dir(P) for m in [_re.fullmatch(r"is_fast_pgn_(\d+)", nm)] if m)
+    # which PGNs are fast-packet PGNs is a fact of the database: a PGN is one when ANY of its definitions says so (the code's
+    # own table is what is being checked, it is not asked)
+    try:
+        import json as _json
+        import os as _os
+        import vlib as _vlib
+        dbj = _json.load(open(_os.path.join(_vlib.REPO, "canboat.json")))
+        db_fast = {d["PGN"] for d in dbj.get("PGNs", []) if d.get("Type") == "Fast"}
+    except Exception:  # noqa: BLE001
+        db_fast = None
     rng.shuffle(pgns)
     pgns.sort(key=lambda x: ((x >> 8) & 0xFF) >= 240)      # the few ADDRESSED fast-packet PGNs first: always in the sample
+
+    def _code_says(x):
+        try:
+            return bool(getattr(P, f"is_fast_pgn_{x}")())
+        except Exception:  # noqa: BLE001
+            return None
+    if db_fast is not None:      # ... and, before all, PGNs on which the code's table and the database disagree
+        pgns.sort(key=lambda x: _code_says(x) is None or _code_says(x) == (x in db_fast))
     out = []
     for pgn in pgns:
         if len(out) >= want:
             break
         try:
-            if not getattr(P, f"is_fast_pgn_{pgn}")():
-                continue
+            code_says = bool(getattr(P, f"is_fast_pgn_{pgn}")())
         except Exception:  # noqa: BLE001
             continue
+        if not (code_says or (db_fast is not None and pgn in db_fast)):
+            continue
+        # multi-definition PGNs: payloads carrying a definition's match values (nothing else selects a definition)
+        try:
+            from props import c08 as _C8
+            _g = _C8._groups(_C8._db()).get(pgn, [])
+            matched = [q for q in _C8._payloads(_g, rng, 1) if _C8._spec_select(_g, q) is not None] \
+                if len(_g) > 1 and any(_C8._match_fields(d) for d in _g) else []
+        except Exception:  # noqa: BLE001
+            matched = []
         for n in (4, 6, 8, 9, 14, 20, 27, 50):
             got = False
-            for attempt in range(3):
-                payload = bytes([0xFF] * n) if attempt == 0 else bytes(rng.choice([0xFF, 0, rng.getrandbits(8)]) for _ in range(n))
+            for attempt in range(3 + min(3, len(matched))):
+                if attempt >= 3:
+                    q = matched[attempt - 3]
+                    payload = (q & ((1 << (8 * n)) - 1)).to_bytes(n, "little")
+                else:
+                    payload = bytes([0xFF] * n) if attempt == 0 else bytes(rng.choice([0xFF, 0, rng.getrandbits(8)]) for _ in range(n))
                 line = "2020-01-01-00:00:00.000,3,%d,1,255,%d,%s" % (pgn, n, ",".join("%02x" % b for b in payload))
                 try:
                     if NMEA2000Decoder().decode_basic_string(line, True) is not None:
